@@ -54,7 +54,7 @@ Proof. unfold abs, taken; cbn. now rewrite find_put_same. Qed.
 Lemma step_abs key s o :
   sp_step (abs key s) o = (abs key (fst (step key s o)), snd (step key s o)).
 Proof.
-  destruct o as [i|i|i secs|ms|v ttl| |i rel r]; cbn [step sp_step].
+  destruct o as [i|i|i secs|ms|v ttl| |i rel r|i dl]; cbn [step sp_step].
   - change (ainsts (abs key s)) with (insts s).
     destruct (nth_error (insts s) i) as [l|]; [|reflexivity].
     rewrite acquire_step, a_seen_abs. rewrite Z.ltb_antisym.
@@ -81,6 +81,16 @@ Proof.
     destruct (lookup (store s) key) as [[v [t|]]|]; reflexivity.
   - change (ainsts (abs key s)) with (insts s).
     destruct (nth_error (insts s) i); reflexivity.
+  - change (ainsts (abs key s)) with (insts s).
+    destruct (nth_error (insts s) i) as [l|]; [|reflexivity].
+    rewrite acquire_step, a_seen_abs. rewrite Z.ltb_antisym.
+    change (anow (abs key s)) with (rnow (store s)).
+    destruct (lease (isecs l) <=? 0); cbn [negb]; [destruct s; reflexivity|].
+    destruct (lookup (store s) key) as [e|].
+    + destruct (bulk_eqb (evalue e) (BStr (iid l))); cbn [fst snd].
+      * now rewrite abs_taken.
+      * destruct s; reflexivity.
+    + cbn [fst snd]. now rewrite abs_taken.
 Qed.
 
 Lemma lock_refines_spec key ops : forall s, run key s ops = sp_run (abs key s) ops.
@@ -173,13 +183,16 @@ Qed.
 Lemma step_incl key s o :
   expiry_inclusive (store (fst (step key s o))) = expiry_inclusive (store s).
 Proof.
-  destruct o as [i|i|i secs|ms|v ttl| |i rel r]; cbn [step]; try reflexivity.
+  destruct o as [i|i|i secs|ms|v ttl| |i rel r|i dl]; cbn [step]; try reflexivity.
   - destruct (nth_error (insts s) i) as [l|]; [|reflexivity]. rewrite acquire_step.
     destruct (lease (isecs l) <=? 0); [reflexivity|].
     destruct (lookup (store s) key) as [e|]; [destruct (bulk_eqb (evalue e) (BStr (iid l)))|]; reflexivity.
   - destruct (nth_error (insts s) i) as [l|]; [|reflexivity]. rewrite release_step.
     destruct (lookup (store s) key) as [e|]; [destruct (bulk_eqb (evalue e) (BStr (iid l)))|]; reflexivity.
   - destruct (nth_error (insts s) i); reflexivity.
+  - destruct (nth_error (insts s) i) as [l|]; [|reflexivity]. rewrite acquire_step.
+    destruct (lease (isecs l) <=? 0); [reflexivity|].
+    destruct (lookup (store s) key) as [e|]; [destruct (bulk_eqb (evalue e) (BStr (iid l)))|]; reflexivity.
 Qed.
 
 Lemma final_incl key : forall ops s,
@@ -198,7 +211,7 @@ Fixpoint elapsed (ops : list op) : Z :=
    by anybody, time passing; not i's own Acquire/Release, no foreign write to the key *)
 Definition quiet (i : nat) (o : op) : bool :=
   match o with
-  | OAcquire j | ORelease j => negb (Nat.eqb j i)
+  | OAcquire j | ORelease j | OAcquireCtx j _ => negb (Nat.eqb j i)
   | OSetExpire _ _ => true
   | OAdvance ms => 0 <=? ms
   | OPoke _ _ => false
@@ -211,7 +224,7 @@ Fixpoint all_refused (n : nat) (ops : list op) (rs : list obs) : Prop :=
   match ops, rs with
   | o :: ops', r :: rs' =>
     match o with
-    | OAcquire j | ORelease j => (j < n)%nat -> r = RB false false
+    | OAcquire j | ORelease j | OAcquireCtx j _ => (j < n)%nat -> r = RB false false
     | OFault j rel rp => (j < n)%nat -> forged_success rel rp = false -> exists e, r = RB false e
     | _ => True
     end /\ all_refused n ops' rs'
@@ -231,11 +244,12 @@ Proof. revert i. induction ls as [|l ls IH]; intro i; destruct i; cbn; auto. Qed
 
 Lemma step_ids key s o : ids (fst (step key s o)) = ids s.
 Proof.
-  unfold ids. destruct o as [i|i|i secs|ms|v ttl| |i rel r]; cbn [step]; try reflexivity.
+  unfold ids. destruct o as [i|i|i secs|ms|v ttl| |i rel r|i dl]; cbn [step]; try reflexivity.
   - destruct (nth_error (insts s) i); [|reflexivity]. destruct (acquire key i0 (store s)). reflexivity.
   - destruct (nth_error (insts s) i); [|reflexivity]. destruct (release key i0 (store s)). reflexivity.
   - cbn. apply ids_set_secs.
   - destruct (nth_error (insts s) i); reflexivity.
+  - destruct (nth_error (insts s) i); [|reflexivity]. destruct (acquire key i0 (store s)). reflexivity.
 Qed.
 
 Lemma other_id s i j id l :
@@ -286,7 +300,7 @@ Lemma quiet_step key i id T s o :
   leased key s' id T /\ rnow (store s') = rnow (store s) + dt o /\ ids s' = ids s /\
   secs_ok s' /\ List.length (insts s') = List.length (insts s) /\
   match o with
-  | OAcquire j | ORelease j => (j < List.length (insts s))%nat -> snd (step key s o) = RB false false
+  | OAcquire j | ORelease j | OAcquireCtx j _ => (j < List.length (insts s))%nat -> snd (step key s o) = RB false false
   | OFault j rel rp => (j < List.length (insts s))%nat -> forged_success rel rp = false ->
                        exists e, snd (step key s o) = RB false e
   | _ => True
@@ -295,7 +309,7 @@ Proof.
   intros ND Hi HS HL Hnow Hq.
   assert (Hseen : lookup (store s) key = Some (mkEntry (BStr id) (Some T))).
   { unfold lookup. rewrite HL. unfold live; cbn. now rewrite before_lt. }
-  destruct o as [j|j|j secs|ms|v ttl| |j rel rp]; cbn [quiet] in Hq; cbn [step dt].
+  destruct o as [j|j|j secs|ms|v ttl| |j rel rp|j dl]; cbn [quiet] in Hq; cbn [step dt].
   - apply negb_true_iff, Nat.eqb_neq in Hq.
     destruct (nth_error (insts s) j) as [l|] eqn:Hj.
     + rewrite acquire_step, Hseen. cbn [evalue].
@@ -319,6 +333,15 @@ Proof.
   - destruct (nth_error (insts s) j) as [l|] eqn:Hj; cbn [fst snd].
     + repeat split; auto; try lia. intros _ Hf. now apply fault_not_success.
     + repeat split; auto; try lia. intro Hlt. apply nth_error_None in Hj. lia.
+  - apply negb_true_iff, Nat.eqb_neq in Hq.
+    destruct (nth_error (insts s) j) as [l|] eqn:Hj.
+    + rewrite acquire_step, Hseen. cbn [evalue].
+      rewrite (other_id s i j id l ND Hi Hj Hq).
+      assert (Hl : 0 <= isecs l).
+      { unfold secs_ok in HS. rewrite Forall_forall in HS. apply HS. eapply nth_error_In; eauto. }
+      rewrite (lease_pos _ Hl). cbn [fst snd]. destruct s; cbn in *.
+      repeat split; auto. lia.
+    + cbn [fst snd]. repeat split; auto; try lia. intro Hlt. apply nth_error_None in Hj. lia.
 Qed.
 
 Lemma elapsed_nonneg i ops : forallb (quiet i) ops = true -> 0 <= elapsed ops.
